@@ -64,14 +64,19 @@ HARNESS_SCHED = dict(HARNESS_TSAN, src="harness/c19_sched.cpp")
 EXTRA_HARNESSES = [HARNESS_TSAN, HARNESS_SCHED]
 
 TIE = ("hand-written model (FcpptModel/Model/C19.lean) mirroring context.cpp / context_tree_node.cpp / find_or_create_child.cpp / "
-       "object.cpp / level_stream.cpp / chain.cpp / tree_formatter.cpp + differential correspondence of whole operation histories "
-       "against the real library (ASan/UBSan); the interleaving model (Model/C19/Conc.lean) is tied to the code by a sampled "
-       "ThreadSanitizer run of 2-6 threads on one context whose observed levels are checked against the linearisation rule")
-RULE = ("a case is one history (`reset`, `ctx <root> <streams>`, then up to 60 operations on one context: set / get / object "
-        "construction through the three constructors / level+enabled of an object / log through object::log and through the "
-        "FCPPT_LOG_<LEVEL> macros); the result line of every operation is compared with the model's. evaluations counts operation "
-        "lines. An op is non-trivial if it is an observation (get, lvl, objr/objl/objc, log, logm) with a well-formed result; "
-        "distinct = distinct (op line, result line) pairs. The TSan runs are counted separately in coverage.tsan.")
+       "object.cpp / level_stream.cpp / chain.cpp / tree_formatter.cpp / location.cpp / level names and io / format factories + "
+       "differential correspondence against the real library (ASan/UBSan): EVERY history of <= 3 state-changing operations over the 15 "
+       "locations of depth <= 3 over two names and three levels (4 operations over depth 2; digest lines with refine), exhaustive "
+       "emission / text / API matrices, random histories; the interleaving model (Model/C19/Conc.lean) is tied to the code by (a) a "
+       "schedule harness that forces every order of k <= 3 operations of k threads through a relaxed turn counter (exact comparison "
+       "with the sequential model, ThreadSanitizer sees only the library's own synchronisation) and releases them together (joint "
+       "result must be the joint result of one of the k! orders), hammer runs, and (b) sampled ThreadSanitizer runs of 2-6 threads "
+       "whose observed levels are checked against the linearisation rule")
+RULE = ("history batches: a case is one history (`reset`, `ctx <root> <streams>`, then operations on one context); the result line of "
+        "every operation is compared with the model's. `small-histories`: one `enum` line stands for all histories with a given prefix "
+        "over a given alphabet and counts as that many evaluations; its result is the number of histories and an FNV digest of every "
+        "result line of every history. An op is non-trivial if it is an observation with a well-formed result; distinct = distinct "
+        "(op line, result line) pairs. The concurrent runs are counted separately in coverage.tsan and coverage.sched.")
 ASSUMPTIONS = [
     "a reference to a tree node is modelled by the node's location (children live in a std::list and are never erased, so references stay valid)",
     "the atomic level of a node is a natural number read/written in one step (single-copy atomicity); std::mutex = at most one owner",
@@ -80,7 +85,8 @@ ASSUMPTIONS = [
     "concurrent claim is PARTIAL: proved for the transcribed interleaving model only; real schedulers, the C++ memory model and "
     "libstdc++'s mutex/atomic are outside the model, TSan is the sampled witness",
 ]
-TRUSTED = ["harness/c19.cpp, harness/c19_tsan.cpp (its timestamp-based justification rule assumes x86-TSO) and the line protocol (vh.hpp, Proto.lean)",
+TRUSTED = ["harness/c19.cpp, harness/c19_tsan.cpp (its timestamp-based justification rule assumes x86-TSO), harness/c19_sched.cpp (forced orders through a "
+           "relaxed turn counter: x86-TSO, no compiler motion of relaxed accesses across the library calls) and the line protocol (vh.hpp, Proto.lean)",
            "g++ 12 + ASan/UBSan (memory safety) and ThreadSanitizer (data races) as dynamic witnesses",
            "the transcription of the lock/atomic discipline in FcpptModel/Model/C19/Conc.lean (reviewed against context.cpp/object.cpp, not proved)"]
 MANIFEST = {
@@ -91,12 +97,15 @@ MANIFEST = {
                    "object_level_eq_latest_prefix, enabled_iff, emits_iff, prefix_order), by an invariant proved over all histories. A "
                    "small-step interleaving model of the lock/atomic discipline is proved race-free on the tree structure (lock_discipline, "
                    "no_conflicting_unsynchronised_accesses) and every level load is proved justified by a linearisation of the overlapping "
-                   "sets (observed_level_justified, get_linearised). The sequential model is tied to the code by differential "
-                   "correspondence over random histories (length <= 60, depth <= 3, 3 names per level); the concurrent one by TSan runs."),
+                   "sets (observed_level_justified, get_linearised; exact when no set is in progress). The rest of libs/log's public API "
+                   "(location, level names and stream operators, format factories, level_stream, default streams, parameters, the FCPPT_LOG_* "
+                   "macros' lazy evaluation) is modelled with its own theorems. The sequential model is tied to the code by differential "
+                   "correspondence over ALL histories of <= 3 operations (depth 3) / 4 operations (depth 2) and random histories (length <= 60); "
+                   "the concurrent one by forcing every order of k <= 3 operations under ThreadSanitizer, released rounds and sampled TSan runs."),
     "level_note": ("Concurrent claim partial: proved about the transcribed step system only (schedulers, C++ memory model, libstdc++ mutex/atomic not "
                    "modelled; unlocked reads of write-once node fields by tree_formatter are shown to hit existing nodes only). Trusted: Lean kernel + "
                    "propext/Classical.choice/Quot.sound; model fidelity outside exercised inputs; harnesses; TSan/ASan as sampled witnesses."),
-    "technique": "Lean 4 proof (invariant over histories; interleaving semantics) + differential correspondence of random histories (ASan/UBSan) + ThreadSanitizer stress harness with linearisation check",
+    "technique": "Lean 4 proof (invariant over histories; interleaving semantics) + differential correspondence of all small and of random histories (ASan/UBSan) + forced-order schedule exploration and ThreadSanitizer stress harness with linearisation checks",
     "design_ref": "DESIGN.md §5 C19",
 }
 
@@ -323,7 +332,7 @@ def sched_checks(thorough, ev):
     sbin, info = hb.build(HARNESS_SCHED)
     if sbin is None:
         return [{"kind": "broken-correspondence", "what": "schedule harness does not build against /repo: " + str(info.get("error", ""))[-1500:]}]
-    lines, dops, checks = plan(thorough, 40 if thorough else 8)
+    lines, dops, checks = plan(thorough, 16 if thorough else 8)
     dres = run_driver(sys.modules[__name__], dops, history=True)
     # maximal contention on one subtree: a setter alternating two levels, an unlocked loader and a locked getter below it
     n = 20000 if thorough else 4000
@@ -357,7 +366,7 @@ def sched_checks(thorough, ev):
     forced = sum(1 for l in lines if l.split()[1] == "f")
     ev["coverage"]["sched"] = {
         "lines": len(lines), "forced_orders": forced, "released_scenarios": len(lines) - forced,
-        "released_rounds": (len(lines) - forced) * (40 if thorough else 8),
+        "released_rounds": (len(lines) - forced) * (16 if thorough else 8),
         "released_with_several_joint_results": sum(1 for l, o in zip(lines, out) if l.split()[1] == "r" and o and o.startswith("ok ") and "#" in o),
         "hammer_runs": len(hammers), "hammer_sets_per_run": n,
         "hammer_observers_seeing_3_values": sum((o or "").count("3") for o in hout if (o or "").startswith("ok hammer")),
